@@ -26,6 +26,8 @@ def _pkg(rng, nw):
     while len(wav) < nw:
         wav.append(wav[-1] * 2)
     pkg['wav'] = wav
+    if rng.random() < 0.5:
+        pkg['wav_dtype'] = 'float32'       # (every wavelength drawn here is a single-precision number)
     pkg['nu'] = pkg['nu'][:nw] if len(pkg['nu']) >= nw else pkg['nu']
     for n in pkg['names']:   # flux rows must have nw entries
         sd = pkg['seds'][n]
@@ -102,7 +104,11 @@ def impl(case):
                 # the window ends are quantities: written in micron, nm, mm, m or Angstrom (the same length, whether or not the number
                 # survives the conversion back to micron exactly)
                 un = [u.micron, u.nm, u.mm, u.m, u.AA, u.micron][k % 6]
-                return (x * u.micron).to(un)
+                q = (x * u.micron).to(un)
+                if k % 3 != 0 and abs(float(np.float32(q.value)) - q.value) <= 1e-13 * abs(q.value):
+                    # the same number held in single precision (e.g. taken from the wavelength column of a file): exactly the same length
+                    q = u.Quantity(np.float32(q.value), un, dtype=np.float32)
+                return q
             ri = len(res)
             kw = {} if win is None else dict(wav_min=_q(win[0], ri), wav_max=_q(win[1], ri // 2 + 1))
             files_um = None
